@@ -236,6 +236,9 @@ where
             "force_merge::folder",
         );
 
+        #[cfg(feature = "search")]
+        let search = self.0.search_index().map(|index| index.search());
+
         let folder = self
             .0
             .folders_mut()
@@ -244,10 +247,19 @@ where
         folder.force_merge(&diff).await?;
 
         // The folder was rebuilt from the new event log so the
-        // in-memory summary must follow its name and flags
+        // in-memory summary must follow its name and flags and
+        // the search index must hold the documents of the new log
         let summary = {
             let access_point = folder.access_point();
             let access_point = access_point.lock().await;
+
+            #[cfg(feature = "search")]
+            if let Some(search) = search {
+                let mut search = search.write().await;
+                search.remove_vault(folder_id);
+                search.add_folder(&access_point).await?;
+            }
+
             access_point.summary().clone()
         };
         self.0
